@@ -284,6 +284,14 @@ func (r *Report) Finish(verifDir string) int {
 			r.Errorf("INSTANCE-FLOOR %s: resolved %d, hand-confirmed floor %d", f.Name, f.Got, f.Want)
 		}
 	}
+	if os.Getenv("MQTTCHECK_VERBOSE") != "" {
+		for _, o := range r.Obls {
+			fmt.Printf("  [%s] %s @%s :: %s\n", o.Verdict, o.Key(), o.Pos, o.Detail)
+		}
+		for _, n := range r.Notes {
+			fmt.Printf("  note: %s\n", n)
+		}
+	}
 	// summary
 	fmt.Printf("property %s tier %s: %d obligations, %d discharged, %d violated, %d known findings, %d undecided\n",
 		r.Property, r.Tier, len(r.Obls), nDis, nVio, nKnown, nUnd)
